@@ -49,7 +49,8 @@ def floors(tier):
     scale = 1 if tier == 'quick' else 30
     return {'evaluations': 250 * scale, 'crossval_cases': 80 * scale, 'holdout_cases': 40 * scale,
             'fullstack_cases': 80 * scale, 'fold_predictions_tainted_checked': 500 * scale,
-            'denotation_compared': 250 * scale, 'apply_reducers_checked': 80 * scale, 'concrete_cases': 100 * scale}
+            'denotation_compared': 250 * scale, 'apply_reducers_checked': 80 * scale, 'concrete_cases': 100 * scale,
+            'pandas_splitter_cases': 200 * scale // (1 if tier == 'quick' else 2), 'splitter_parts_checked': 1000 * scale // (1 if tier == 'quick' else 2)}
 
 
 # ------------------------------------------------------------------------------------------------ taint monitor
@@ -422,6 +423,77 @@ def _judge_concrete(train, test, true, pred, tag):
     return None
 
 
+INDEX_KINDS = ['range', 'permuted', 'shifted', 'reversed', 'strings', 'duplicates', 'floats']
+
+
+def _index(kind, size, rng):
+    if kind == 'range':
+        return None
+    if kind == 'permuted':  # e.g. after set_index(record id) / sort_values without reset_index
+        return rng.sample(range(size), size)
+    if kind == 'shifted':
+        return [100 + i for i in range(size)]
+    if kind == 'reversed':
+        return list(range(size - 1, -1, -1))
+    if kind == 'strings':
+        return [f'r{rng.randrange(1000)}_{i}' for i in range(size)]
+    if kind == 'duplicates':
+        return [i // 2 for i in range(size)]
+    return [i + 0.5 for i in range(size)]
+
+
+def check_pandas_splitter(ctx, pairs, feature_index, label_index, multilabel, seed):
+    """The stock pandas splitter actor (``payload.PandasCVFolds``, what CrossVal / HoldOut / FullStack use by default) under
+    *arbitrary* splitter decisions and arbitrary frame indexes: trained once, applied to the features and to the labels
+    the way the fold wiring does - port 2i / 2i+1 of both must hold exactly the records at the positions the cross-validator
+    decided for fold i, in that order (the decisions are positions; frame index labels are none of the splitter's business)."""
+    import random
+
+    import pandas
+    from forml.pipeline import payload
+    from vlib import exprgen
+
+    ctx.count('evaluations')
+    ctx.count('pandas_splitter_cases')
+    witness = {'splitter': 'pandas', 'pairs': pairs, 'feature_index': feature_index, 'label_index': label_index,
+               'multilabel': multilabel, 'seed': seed}
+    ctx.shape(('pandas-splitter', feature_index, label_index, multilabel, tuple((tuple(a), tuple(b)) for a, b in pairs)))
+    rng = random.Random(seed)
+    size = 1 + max(i for pair in pairs for part in pair for i in part)
+    features = pandas.DataFrame({'rid': list(range(size)), 'f': [f'x{i}' for i in range(size)]}, index=_index(feature_index, size, rng))
+    if multilabel:
+        labels = pandas.DataFrame({'y': [10 * i for i in range(size)], 'z': [-i for i in range(size)]}, index=_index(label_index, size, rng))
+    else:
+        labels = pandas.Series([10 * i for i in range(size)], index=_index(label_index, size, rng), name='y')
+    try:
+        actor = payload.PandasCVFolds(crossvalidator=exprgen.FixedCV(pairs))
+        actor.train(features, labels)
+        clone = payload.PandasCVFolds(crossvalidator=exprgen.FixedCV([]))  # the fork applied to the labels gets the state only
+        clone.set_state(actor.get_state())
+        fparts = actor.apply(features)
+        lparts = clone.apply(labels)
+    except Exception as err:  # pylint: disable=broad-except
+        ctx.violation('pandas-splitter-raises', f'PandasCVFolds over parts {pairs} ({feature_index}/{label_index} index) raised {err!r}',
+                      witness)
+        return
+    if len(fparts) != 2 * len(pairs) or len(lparts) != 2 * len(pairs):
+        ctx.violation('fold-missing-or-repeated', f'{len(fparts)}/{len(lparts)} output ports for {len(pairs)} folds', witness)
+        return
+    for fold, pair in enumerate(pairs):
+        for side, positions in enumerate(pair):
+            ctx.count('splitter_parts_checked')
+            port = 2 * fold + side
+            got_f = [int(v) for v in fparts[port]['rid'].tolist()]
+            column = lparts[port]['y'] if multilabel else lparts[port]
+            got_l = [int(v) for v in column.tolist()]
+            if got_f != list(positions) or got_l != [10 * i for i in positions]:
+                key = 'features-and-labels-split-differently' if [10 * i for i in got_f] != got_l else 'fold-part-not-the-splitter-decision'
+                ctx.violation(key, f'fold {fold} {"test" if side else "train"} part decided as positions {list(positions)}: features '
+                              f'records {got_f}, labels of records {[v // 10 for v in got_l]} ({feature_index} features index, '
+                              f'{label_index} labels index)', witness)
+                return
+
+
 def concrete_pairs(rng):
     """Arbitrary splitter decisions over 6-12 records: partitions, gapped, overlapping tests, time-series like."""
     size = rng.randint(6, 12)
@@ -476,10 +548,16 @@ def run(ctx):
     crng = ctx.rng('concrete', ctx.shard)
     for k in range(ctx.pick(120, 4000) // ctx.nshards):
         check_concrete(ctx, concrete_pairs(crng), ['crossval', 'holdout', 'fullstack'][k % 3], crng.randint(1, 3))
+    for k in range(ctx.pick(240, 4000) // ctx.nshards):
+        check_pandas_splitter(ctx, concrete_pairs(crng), INDEX_KINDS[k % len(INDEX_KINDS)], crng.choice(INDEX_KINDS), crng.random() < 0.3,
+                              crng.randrange(10**6))
 
 
 def replay(ctx, witness):
-    if 'pairs' in witness:
+    if witness.get('splitter') == 'pandas':
+        check_pandas_splitter(ctx, [(list(a), list(b)) for a, b in witness['pairs']], witness['feature_index'], witness['label_index'],
+                              witness['multilabel'], witness['seed'])
+    elif 'pairs' in witness:
         check_concrete(ctx, [(list(a), list(b)) for a, b in witness['pairs']], witness['mode'], witness['bases'])
     elif 'kind' in witness:
         check_traintest(ctx, witness['expr'], witness['kind'], witness['n'])
